@@ -202,6 +202,20 @@ def directed(run, prop, tier, seed):
         elif data != pr["meta"]:
             s.violate({"src": pr["src"]}, pr["meta"].hex(), data.hex() if data is not None else (r.get("exc"), r.get("error")), "output differs from the hand-expanded expectation")
     s.sample({"src": fam[0][0]})
+    if prop == "C08":
+        # a top-level constant given on the command line is shadowed by scope-local names like any other
+        from props import frontends
+        for k in range(3 if tier == "quick" else 12):
+            v = rng.randrange(3, 200)
+            src = ("*=0x008000\n.for k := 0, 3 {\n.db k\n}\n.macro m(k) {\n.db k\n}\nm(7)\n{\nk = 9\n.db k\n}\n.db k\n")
+            want = bytes([0, 1, 2, 7, 9, v])
+            rep, data, _, err = frontends.cli(src, run.tmp, fmt="ips", defines=[("k", v)])
+            s.cases += 1
+            s.count("cli-define-shadowed")
+            rec = data[5 + 5:5 + 5 + len(want)] if data and data[:5] == b"PATCH" else None
+            if rec != want:
+                s.violate({"src": src, "command": f"x816 -f ips -D k={v}"}, want.hex(), rec.hex() if rec else (rep, err[-120:]),
+                          "a loop variable / macro parameter / block-local symbol does not shadow the command-line constant of the same name")
     return s
 
 
